@@ -291,7 +291,7 @@ def workload(rng, n):
     out = []
     for _ in range(n):
         q = lambda: "(q %d %d)" % (rng.randint(-99, 99), rng.randint(1, 99))
-        bigq = lambda: "(q %d %d)" % (zany(rng, 140), abs(znz(rng, 140)))
+        bigq = lambda: "(q %d %d)" % (zany(rng, 140), znz(rng, 140))      # also negative denominators
         k = rng.random()
         if k < 0.25:
             terms = " ".join("(mul %s (pow %s (i %d)))" % (q(), rng.choice("xyz"), rng.randint(0, 3)) for _ in range(rng.randint(2, 4)))
@@ -393,9 +393,10 @@ def nontrivial(case):
 
 def explore(ctx, drvs, model, cases, search=False):
     rel_exe, boost_exe = drvs
-    rel = ctx.run_lines(rel_exe, cases, timeout=3000)
-    boost = ctx.run_lines(boost_exe, cases, timeout=3000)
-    mod = ctx.run_lines(model, cases, timeout=3000)
+    from concurrent.futures import ThreadPoolExecutor
+    with ThreadPoolExecutor(max_workers=3) as ex:       # the three runs are independent
+        futs = [ex.submit(ctx.run_lines, exe, cases, 3000) for exe in (rel_exe, boost_exe, model)]
+        rel, boost, mod = [f.result() for f in futs]
     ctx.cov["evaluations"] += len(cases)
     ctx.cov["distinct_nontrivial"] += len(set(c for c in cases if nontrivial(c)))
     ctx.cov["traces_validated_against_impl"] += sum(1 for m in mod if m != "-")
